@@ -313,6 +313,8 @@ def check_session_case(ctx, case):
     if (m_out, m_last, m_hops) != (res['outcome'], res['last'], real_heads):
         ctx.disagree('session', case, {'outcome': m_out, 'last': m_last, 'hops': m_hops},
                      {'outcome': res['outcome'], 'last': res['last'], 'hops': real_heads})
+    if res['outcome'] == 'non-http-next-request':
+        ctx.fail('non-http-hop', 'WebSession._process_redirect', case, 'a redirect produced a next request that is not an http(s) URL')
     if res['outcome'] in ('stalled', 'runaway'):
         ctx.fail('no-termination', 'WebSession', case, 'session %s after %d requests' % (res['outcome'], len(res['hops'])))
     # ---- direct oracle on the real hops
